@@ -285,7 +285,7 @@ def run(rep, tier, seed):
                      "remove-identity", "keep-identity") else f for f in FUNS)) + ["into", "sequence", "transduce", "eduction", "comp", "reduce"],
                      "compiled by the real compiler; run on CrossHair proxies")
     rep.encoded("src/basilisp/lang/runtime.py", ["internal_reduce"], "executed on proxies")
-    maxlen = 2 if quick else 3
+    maxlen = 2
     to = 45 if quick else 120
     specs = []
     for f in FUNS:
@@ -293,6 +293,8 @@ def run(rep, tier, seed):
             specs.append(mk_spec([f], form, maxlen, to))
             if f == "distinct":
                 specs.append(mk_spec([f], form, maxlen, to, conflate=True))
+        if not quick:
+            specs.append(mk_spec([f], "into", 3, to * 2))        # thorough: every list of length <= 3 through one application form
     for f in FUNS:
         if f != "take":
             specs.append(pulls_spec(f, to))
@@ -305,28 +307,28 @@ def run(rep, tier, seed):
     # called again by mapcat / cat / interpose / partition-by after it has returned `reduced`) and `take` followed by every function
     for f in FUNS:
         if FUNS[f][3] is None:
-            specs.append(mk_spec([f, "take"], "into", 2 if quick else 3, to, n_range=(1, 2)))
+            specs.append(mk_spec([f, "take"], "into", 2, to, n_range=(1, 2)))
             if not quick:
-                specs.append(mk_spec(["take", f], "into", 3, to, n_range=(1, 2)))
-                specs.append(mk_spec([f, "take"], "sequence", 3, to, n_range=(1, 2)))
-                specs.append(mk_spec([f, "take"], "eduction", 3, to, n_range=(1, 2)))
+                specs.append(mk_spec(["take", f], "into", 2, to, n_range=(1, 2)))
+                specs.append(mk_spec([f, "take"], "sequence", 2, to, n_range=(1, 2)))
+                specs.append(mk_spec([f, "take"], "eduction", 2, to, n_range=(1, 2)))
     pairs = [p for p in itertools.permutations(FUNS, 2) if sum(1 for f in p if FUNS[f][3]) <= 1]
     rnd.shuffle(pairs)
     for p in pairs[:(4 if quick else 20)]:
         for form in (["into", "lazy-seq"] if quick else ["into", "lazy-seq", "sequence", "transduce"]):
-            specs.append(mk_spec(list(p), form, 2 if quick else 3, to))
+            specs.append(mk_spec(list(p), form, 2, to))
     if not quick:
         triples = [t for t in itertools.permutations(FUNS, 3) if sum(1 for f in t if FUNS[f][3]) <= 1]
         rnd.shuffle(triples)
         for t in triples[:10]:
-            specs.append(mk_spec(list(t), "into", 3, to))
-            specs.append(mk_spec(list(t), "sequence", 3, to))
+            specs.append(mk_spec(list(t), "into", 2, to))
+            specs.append(mk_spec(list(t), "sequence", 2, to))
         for f in FUNS:
             for ct in ("lazy",):
-                specs.append(mk_spec([f], "into", 3, to, ct))
-                specs.append(mk_spec([f], "lazy-seq", 3, to, ct))
+                specs.append(mk_spec([f], "into", 2, to, ct))
+                specs.append(mk_spec([f], "lazy-seq", 2, to, ct))
     specs += early_specs(maxlen, to)
-    rep.bounds = {"input_length": f"<= {maxlen}", "elements": "every list over {nil, false, true, 0, 1, 2, :a} up to the length bound (solver-chosen codes)", "numeric params": "0..2 / 1..2",
+    rep.bounds = {"input_length": "<= 2; thorough: <= 3 through `into` for every single function", "elements": "every list over {nil, false, true, 0, 1, 2, :a} up to the length bound (solver-chosen codes)", "numeric params": "0..2 / 1..2",
                   "pipelines": f"all single functions x 5 application forms; {4 if quick else 20} sampled pairs (VERIF_SEED)"
                                + ("" if quick else "; 10 sampled triples; lazy-seq inputs")}
     rep.outside = ["inputs longer than the bound", "pipeline shapes are enumerated/sampled, not solver-chosen"]
